@@ -19,7 +19,7 @@ its result.  Probe i sits before the call of fn, probe j after it.
 """
 
 IMPORTS = [
-    "from mc.c13_env import P, PF, PI, DEC, CB, LO, SCF, Boom",
+    "from mc.c13_env import P, PF, PI, DEC, CB, LO, SCF, RR, Boom",
     "import mc.c13_env as _c13_env; _c13_env.register()",
 ]
 CACHE_IMPL = "c13dict"
@@ -39,17 +39,57 @@ class BoomBase(BaseException):
         BaseException.__init__(self, i, msg)
 
 
+# exception families that library code might special-case: every one is also a Boom, so that `% except Boom` handles it
+class BoomOS(Boom, FileNotFoundError):
+    pass
+
+
+class BoomKey(Boom, KeyError):
+    pass
+
+
+class BoomAttr(Boom, AttributeError):
+    pass
+
+
+class BoomType(Boom, TypeError):
+    pass
+
+
+class BoomStop(Boom, StopIteration):
+    pass
+
+
+class BoomUni(Boom, UnicodeError):
+    pass
+
+
+class BoomRT(Boom, RuntimeError):
+    pass
+
+
+KIND_CLASSES = [Boom, BoomOS, BoomKey, BoomAttr, BoomType, BoomStop, BoomUni, BoomRT]
+KIND_NAMES = ["Boom", "OSError", "KeyError", "AttributeError", "TypeError", "StopIteration", "UnicodeError", "RuntimeError"]
+
+VISITS = {}  # probe number -> times reached (armed or not); cleared by the harness: the side-effect counter
+
+
 def _fire(i, T):
+    """an entry v of T arms probe abs(v) % 1000 with raise kind abs(v) // 1000 (0 = Boom); v < 0 = BoomBase"""
+    VISITS[i] = VISITS.get(i, 0) + 1
     if not T:
         return
-    if i in T:
-        T.remove(i)
-        e = Boom(i, "kaboom#%d" % i)
-    elif -i in T:
-        T.remove(-i)
-        e = BoomBase(i, "kaboom#%d" % i)
+    for v in T:
+        a = -v if v < 0 else v
+        if a % 1000 == i:
+            break
     else:
         return
+    T.remove(v)
+    if v < 0:
+        e = BoomBase(i, "kaboom#%d" % i)
+    else:
+        e = KIND_CLASSES[a // 1000](i, "kaboom#%d" % i)
     RAISED.append(e)
     raise e
 
@@ -125,6 +165,17 @@ def SCF(context, x, i):
         _scf_wrapped[0] = rt
         _scf_wrapped[1] = rt.supports_caller(_scf)
     return _scf_wrapped[1](context, x, i)
+
+
+def RR(context):
+    """re-entrant render: the Template being rendered is rendered again (fault free) from inside its own render,
+    through render(); the inner render does not recurse further"""
+    if context.get("NR"):
+        return ""
+    out = context.lookup.get_template("/main").render(T=[], NR=1)
+    if isinstance(out, bytes):
+        out = out.decode("utf-8")
+    return out
 
 
 def LO(loop):
